@@ -1,6 +1,14 @@
 """Per-profile tier budgets: number of seeded runs and wall-clock cap (budget exhaustion is not an error)."""
 
 TIERS = {
+    "values": {
+        "quick": {"runs": 640, "budget_s": 70, "min_budget": 150},
+        "thorough": {"runs": 20000, "budget_s": 540, "min_budget": 300},
+    },
+    "paths": {
+        "quick": {"runs": 480, "budget_s": 70, "min_budget": 150},
+        "thorough": {"runs": 16000, "budget_s": 540, "min_budget": 300},
+    },
     "history": {
         "quick": {"runs": 200, "budget_s": 60, "min_budget": 150},
         "thorough": {"runs": 6000, "budget_s": 480, "min_budget": 300},
